@@ -66,7 +66,34 @@ def new_game(case):
     g._cv_fake = fake
     g._cv_peek = bool(case.get("peek"))
     g._cv_kw = kw          # the very argument objects the game was built from
+    if case.get("via_resume") and not case.get("resume_at"):
+        g = resumed(g, case)
     return g
+
+
+def resumed(g, case):
+    """the same state, but as an object built through the documented resume parameters of the constructor (C15: such an
+    object behaves identically from then on), with the two seat-keyed mappings written in another key order than 0..n-1 --
+    a caller may have saved them in betting order.  Completed hands and states without a seat to act cannot be resumed
+    (finding F9) and are returned as they are."""
+    vr = case.get("via_resume")
+    if not vr or g.action is None or g.is_complete:
+        return g
+    cls = type(g)
+    kw = g._cv_kw
+    n = g.num_players
+    order = list(range(n)); order = order[vr % n:] + order[:vr % n]
+    if vr % 2:
+        order.reverse()
+    pb = {p: g.pot.balances[p] for p in order if p in g.pot.balances}
+    la = {p: g.last_actions[p] for p in order if p in g.last_actions}
+    install_sampler(g._cv_fake)
+    h = cls(num_players=n, deck=list(g.deck), starting_stacks=list(kw["starting_stacks"]), hands=kw["hands"],
+            boards=[list(g.boards[0])], ante=kw["ante"], blinds=list(g.blinds), stacks=list(g.stacks), action=g.action,
+            street=g.street, actions=list(g.actions), last_actions=la, pot_balances=pb, all_in_runouts=kw["all_in_runouts"],
+            rake_fraction=kw["rake_fraction"], max_rake=kw["max_rake"])
+    h._cv_fake = g._cv_fake; h._cv_peek = g._cv_peek; h._cv_kw = kw
+    return h
 
 
 def observe(g):
@@ -143,7 +170,23 @@ def run_ops(case, shared_from=None):
         rec["ctor"] = {"err": type(e).__name__, "msg": str(e)[:100]}
         return rec, None
     rec["ctor"] = observe(g)
-    for o in case["ops"]:
+    fork_at = case.get("fork_at")
+    forked = None; nreal = 0
+    for oi, o in enumerate(case["ops"]):
+        if not o.get("probe") and o.get("k") != "reset":
+            if case.get("resume_at") and nreal == case["resume_at"] and forked is None:
+                g = resumed(g, case)
+            if fork_at is not None and forked is None and nreal == fork_at:
+                if case.get("fork_mode") == "stale":
+                    # play goes on with a deep copy while the original stays behind, frozen in this state (and alive)
+                    rec.setdefault("_frozen", []).append(g)
+                    g = copy.deepcopy(g)
+                    forked = (oi, None)
+                else:
+                    # a deep copy of the live object (a look-ahead bot, a stored table): continued AFTER the original has been
+                    # played to the end, from the same state, with the same injected randomness -- it must behave the same
+                    forked = (oi, copy.deepcopy(g))
+            nreal += 1
         if o.get("k") == "reset":
             install_sampler(g._cv_fake)
             try:
@@ -175,6 +218,22 @@ def run_ops(case, shared_from=None):
             rec["steps"].append(st)
             if r == "internal":
                 break
+    rec.pop("_frozen", None)
+    if forked is not None and forked[1] is not None:
+        oi0, c = forked
+        fsteps = []
+        for o in case["ops"][oi0:]:
+            if o.get("probe") or o.get("k") == "reset":
+                fsteps.append(None)
+                continue
+            r, e = apply_op(c, o["o"])
+            st = {"r": r, "e": e}
+            if r == "ok":
+                st["s"] = observe(c)
+            fsteps.append(st)
+            if r == "internal":
+                break
+        rec["fork"] = {"from": oi0, "steps": fsteps}
     return rec, g
 
 
@@ -258,6 +317,12 @@ def gen_cfg(rng, scope="mixed", huge=False):
            "samp": [rng.randrange(0, 60), rng.choice([0, 1, 5, 7])]}
     if rng.random() < 0.25:
         cfg["peek"] = True      # a client that previews the rake on the live pot between actions (a read-only query)
+    if rng.random() < 0.25:
+        cfg["via_resume"] = rng.randrange(1, 12)
+        cfg["resume_at"] = rng.choice([0, 0, 1, 2, 3, 4, 6])
+    if rng.random() < 0.3:
+        cfg["fork_at"] = rng.choice([0, 0, 1, 2, 3, 5, 8])
+        cfg["fork_mode"] = rng.choice(["late", "stale"])
     if huge and not raked and rng.random() < 0.06:
         # chip counts beyond 2^53: the integer side of the engine (stacks, contributions, what is owed, the legal bet sizes)
         # must stay exact; payouts and pnl are floats by design and are NOT judged on such tables (C04 only)
